@@ -142,6 +142,8 @@ PLUS_LINES = ["s%d = a%d +"]
 def make_body(rng, uid, bad_rate):
     body = []
     kinds = set()
+    if rng.random() < 0.06:
+        return body, kinds          # an empty user block stays empty (it replaces the default body)
     for j in range(rng.randint(1, 4)):
         r = rng.random()
         if r < bad_rate / 2:
